@@ -20,10 +20,30 @@ type serveEffects struct {
 
 func (c *Ctx) writeOf(in ssa.Instruction) (pktT string, id ssa.Value, ok bool) {
 	k, isCall := in.(*ssa.Call)
-	if !isCall || c.StaticCalleeOf(&k.Call) != c.Method("BaseClient", "write") || len(k.Call.Args) != 2 {
+	if !isCall {
 		return "", nil, false
 	}
-	pt, pcall := c.packedType(k.Call.Args[1])
+	var operand ssa.Value
+	switch {
+	case !k.Call.IsInvoke() && c.StaticCalleeOf(&k.Call) == c.Method("BaseClient", "write") && len(k.Call.Args) == 2:
+		operand = k.Call.Args[1]
+	case k.Call.IsInvoke() && k.Call.Method.Name() == "Write" && len(k.Call.Args) == 1:
+		// the transport written directly (a write loop inlined from a helper): operand = (a tail of) the packed packet
+		if _, isT := isFieldLoad(c.Resolve(k.Call.Value), "BaseClient", "Transport"); !isT {
+			return "", nil, false
+		}
+		operand = c.Resolve(k.Call.Args[0])
+		for i := 0; i < 4; i++ {
+			sl, isSl := operand.(*ssa.Slice)
+			if !isSl {
+				break
+			}
+			operand = c.Resolve(sl.X)
+		}
+	default:
+		return "", nil, false
+	}
+	pt, pcall := c.packedType(operand)
 	if pcall == nil {
 		return "?", nil, true
 	}
@@ -616,7 +636,32 @@ func (c *Ctx) ruleReaderDiscipline(rr *RuleRep) {
 			continue
 		}
 		n++
-		if mk, isMk := v.(*ssa.MakeSlice); !isMk || mk.Parent() != rp {
+		// every value the body can be is (a re-slice of) memory allocated by this very call of readPacket
+		var local func(v ssa.Value, depth int) bool
+		local = func(v ssa.Value, depth int) bool {
+			if depth > 8 {
+				return false
+			}
+			switch x := v.(type) {
+			case *ssa.MakeSlice:
+				return x.Parent() == rp
+			case *ssa.Alloc:
+				return x.Parent() == rp
+			case *ssa.Slice:
+				return local(c.Resolve(x.X), depth+1)
+			case *ssa.Phi:
+				for _, e := range x.Edges {
+					if !local(c.Resolve(e), depth+1) {
+						return false
+					}
+				}
+				return len(x.Edges) > 0
+			case *ssa.ChangeType:
+				return local(x.X, depth+1)
+			}
+			return false
+		}
+		if !local(v, 0) {
 			fresh = false
 			rr.Bad("readPacket/body", ret.Pos(), "the packet body handed to the parsers is not a buffer freshly allocated for this packet (%s): parsed messages alias it (Payload is a sub-slice), so a message held for later — a QoS 2 message waiting for PUBREL, or one a handler keeps — is overwritten by the next packet", describeVal(v))
 		}
